@@ -286,13 +286,17 @@ def quantize_real_stub(x, target_mean=0, target_std=1, num_bits=8, data_mean=Non
     return npx._map(lambda e: Sym(QREAL(lift(e), lift(data_mean), lift(data_std))), x)
 
 
-def build_real(npol, nant, period, bpf=2, nsb=2):
+GEOM = dict(Wb=2, nsb=2)          # windows per block / num_subblocks of build_real (a job may set another geometry)
+
+
+def build_real(npol, nant, period, bpf=2, nsb=None):
     """backend with REAL quantisers (refresh period `period`) on a symbolic stream"""
+    nsb = GEOM['nsb'] if nsb is None else nsb
     ant = C02.FakeAntenna(npol) if nant == 1 else C02.FakeArray(nant, npol)
     fb = PF.PolyphaseFilterbank(num_taps=2, num_branches=4)
     be = B.RawVoltageBackend(ant, Q.RealQuantizer(num_bits=8, stats_calc_period=period, stats_calc_num_samples=4), fb,
                              Q.ComplexQuantizer(num_bits=8, stats_calc_period=period, stats_calc_num_samples=4), start_chan=0, num_chans=2,
-                             block_size=2 * 2 * nant * 2 * (2 * npol), blocks_per_file=bpf, num_subblocks=nsb)
+                             block_size=2 * GEOM['Wb'] * nant * 2 * (2 * npol), blocks_per_file=bpf, num_subblocks=nsb)
     return be, ant
 
 
@@ -304,11 +308,14 @@ def file_terms(fs, stem):
     return out
 
 
-def job_history(period, first_blocks, hdr_mode, nant):
-    """recording #2 after recording #1 == recording #2 on a fresh backend whose antenna is in the same state"""
+def job_history(period, first_blocks, hdr_mode, nant, geom=None):
+    """recording #2 after recording #1 == recording #2 on a fresh backend whose antenna is in the same state.
+    geom=(Wb, nsb): windows per block and num_subblocks (5 windows in 2 sub-blocks: a partition that does not divide, so
+    that a partition re-derived from block to block could drift)"""
     recs = []
-    tag = f"C12:history:{(period, first_blocks, hdr_mode, nant)}"
-    pl = dict(fn='history', period=period, first_blocks=first_blocks, hdr_mode=hdr_mode, nant=nant)
+    tag = f"C12:history:{(period, first_blocks, hdr_mode, nant)}" + (f":geom{geom}" if geom else '')
+    pl = dict(fn='history', period=period, first_blocks=first_blocks, hdr_mode=hdr_mode, nant=nant, geom=list(geom) if geom else None)
+    GEOM.update(dict(Wb=geom[0], nsb=geom[1]) if geom else dict(Wb=2, nsb=2))
     fs = MemFS()
     user = {'HELLO': 'x', 'PKTIDX': 500}
     # 'explicit_twin': the earlier recording carried numerically EQUAL values of another type under the same keys
@@ -741,7 +748,7 @@ def replay_history(p):
                 st.add_signal(lambda ts: 0.5 * np.sin(40 * ts) * (1 + ts * 20))
             be = bk.RawVoltageBackend(src, qz.RealQuantizer(num_bits=8, stats_calc_period=p['period'], stats_calc_num_samples=50), pf.PolyphaseFilterbank(num_taps=2, num_branches=4),
                                       qz.ComplexQuantizer(num_bits=8, stats_calc_period=p['period'], stats_calc_num_samples=50), start_chan=0, num_chans=2,
-                                      block_size=2 * 2 * p['nant'] * 2 * 4 * 8, blocks_per_file=2, num_subblocks=3)
+                                      block_size=2 * (p['geom'][0] if p.get('geom') else 16) * p['nant'] * 2 * 4, blocks_per_file=2, num_subblocks=(p['geom'][1] if p.get('geom') else 3))
             return be, src
         user = {'HELLO': 'x', 'PKTIDX': 500}
         twin = p['hdr_mode'] == 'explicit_twin'
@@ -761,7 +768,7 @@ def replay_history(p):
         srcB.set_time(0)
         beB = bk.RawVoltageBackend(srcB, qz.RealQuantizer(num_bits=8, stats_calc_period=p['period'], stats_calc_num_samples=50), pf.PolyphaseFilterbank(num_taps=2, num_branches=4),
                                    qz.ComplexQuantizer(num_bits=8, stats_calc_period=p['period'], stats_calc_num_samples=50), start_chan=0, num_chans=2,
-                                   block_size=2 * 2 * p['nant'] * 2 * 4 * 8, blocks_per_file=2, num_subblocks=3)
+                                   block_size=2 * (p['geom'][0] if p.get('geom') else 16) * p['nant'] * 2 * 4, blocks_per_file=2, num_subblocks=(p['geom'][1] if p.get('geom') else 3))
         beB.record(os.path.join(d, 'b2'), num_blocks=2, length_mode='num_blocks', verbose=False, load_template=False, **kw(dict(user)))
         if twin:
             from setigen.voltage import raw_utils as ru_
@@ -871,6 +878,7 @@ def main():
                 jobs.append(('job_history', (period, first_blocks, hdr_mode, 1)))
     jobs.append(('job_history', (3, 1, 'explicit', 2)))
     jobs.append(('job_history', (1, 1, 'explicit_twin', 1)))
+    jobs.append(('job_history', (1, 1, 'default', 1, (5, 2))))
     for (delays, fb_, npol, source) in (((0, 3), 1, 1, 'array'), ((2, 0), 2, 2, 'array'), ((0, 0), 1, 1, 'array'), ((0,), 1, 2, 'antenna'), ((0,), 2, 1, 'antenna')):
         jobs.append(('job_history_array', (delays, fb_, npol, source)))
     for (na_, np_) in ((1, 2), (2, 1)):
